@@ -208,9 +208,13 @@ def confirm(ob):
     streams = [[float(v) for v in range(60, 0, -1)], [float(v) for v in range(1, 61)],
                [float((7 * i) % 23) for i in range(40)], [rnd.uniform(-5, 5) for _ in range(50)],
                [float(v) for v in (5, 4, 3, 2, 1, 0, -1, -2, 10, 11, -3, 12, -4)]]
+    # heavy-tie streams over a small alphabet (exact coincidences between predictions and marker heights)
+    for _ in range(120):
+        streams.append([float(rnd.randint(0, 3)) for _ in range(rnd.randint(6, 9))])
+    streams.append([3.0, 3.0, 1.0, 0.0, 0.0, 0.0])
     progs, exps = [], []
     for xs in streams:
-        for p in (0.5, 0.1, 0.9, 0.0, 1.0):
+        for p in ((0.5, 0.1, 0.9, 0.0, 1.0) if len(xs) > 10 else (0.0, 0.25, 0.5, 0.75)):
             progs.append({"type": "Quantile", "ctor": ["new", p], "ops": [["add", v] for v in xs], "observe": ["quantile", "len"]})
             exps.append(p2_reference(p, xs))
     results = replay.run_programs(progs)
